@@ -979,6 +979,25 @@ func (ev *Env) call(e *Expr) Val {
 		}
 		ev.c.declFun("catkey", []string{SKey, SKey}, SKey)
 		return Val{K: KKey, T: app("catkey", a.T, b.T)}
+	case "catkeys":
+		// catkeys(k1, ..., kn): left-associated concatenation of content keys
+		ev.c.declFun("catkey", []string{SKey, SKey}, SKey)
+		var t Term
+		for i := range e.Args {
+			a := arg(i)
+			if a.K == KSlice {
+				a = Val{K: KKey, T: ev.c.strKey(a)}
+			}
+			if a.K != KKey {
+				efail("catkeys needs keys or strings")
+			}
+			if i == 0 {
+				t = a.T
+			} else {
+				t = app("catkey", t, a.T)
+			}
+		}
+		return Val{K: KKey, T: t}
 	case "box":
 		// box(value, "pkg.Type"): the interface value holding a concrete value
 		x := arg(0)
